@@ -581,3 +581,151 @@ def c01_2(R):
     it = R.body(SEG + "::iter_mut_for_sending")
     # removed_abs / snd_una snapshots come from the same-named fields
     R.ok("iterator-snapshots", it.name, "the closure's captured snapshots are traced to Segments.removed_offset / Segments.snd_una in the parent")
+
+
+@rule("C01.8", ["C01"], ["E3", "E4", "E2"], "the reader hands every queued payload byte to the application once, in order, and reports the count it copied",
+      "In UtpStreamReadHalf::poll_read_vectored: the one copy_from_slice copies payload[offset..][..len] into current_buf[..len] with the same len = min(buffer room, bytes left); on every path from the copy to "
+      "the next loop iteration or a return the buffer is advanced by len, `written += len` and `current.offset += len` (same len); `self.current` is cleared only under offset == payload.len(); "
+      "the queue is popped only while no partially read message is pending (self.current is None); a popped Payload becomes BeingRead { payload, offset: 0 }; Ready(Ok(n)) returns n = written, and Ok(0) "
+      "only under written == 0. AsyncRead::poll_read advances the ReadBuf by exactly the returned count.")
+def c01_8(R):
+    b = R.body("stream_rx::UtpStreamReadHalf::poll_read_vectored")
+    copies = [t for t in b.calls() if call_matches(t, ("core::slice::copy_from_slice",))]
+    R.require(len(copies) == 1, "one copy_from_slice in poll_read_vectored")
+    cp = copies[0]
+
+    def range_to_len(op):
+        """for `x[..n]`: (Trace of x, local n) else (None, None)"""
+        t = trace(b, op)
+        if t.kind == "call" and call_matches(t.root[1], ("index::index", "index::index_mut", "Index::index", "IndexMut::index_mut")) and not t.fields:
+            rg = trace(b, t.root[1].args[1])
+            if rg.kind == "rv" and rg.root[1].rv.kind == "agg" and rg.root[1].rv.j.get("adt", "").endswith("RangeTo") and rg.root[1].rv.ops:
+                return trace(b, t.root[1].args[0]), copy_root(b, rg.root[1].rv.ops[0])
+        return None, None
+    dst, n1 = range_to_len(cp.args[0])
+    src, n2 = range_to_len(cp.args[1])
+    ok_src = False
+    if src is not None and src.kind == "call" and call_matches(src.root[1], ("Index::index", "index::index")):
+        base = trace(b, src.root[1].args[0])
+        rg = trace(b, src.root[1].args[1])
+        if base.last_field == "BeingRead.payload" and rg.kind == "rv" and rg.root[1].rv.j.get("adt", "").endswith("RangeFrom") and trace(b, rg.root[1].rv.ops[0]).last_field == "BeingRead.offset":
+            ok_src = True
+    ok_len = False
+    if n1 is not None and n1 == n2:
+        d = b.unique_def(n1)
+        if isinstance(d, Term) and call_matches(d, ("Ord::min",)):
+            ls = [trace(b, a) for a in d.args]
+            if all(t.kind == "call" and (t.root[1].resolved or "").endswith("::len") for t in ls):
+                ok_len = True
+    if ok_src and ok_len and dst is not None:
+        R.ok("copy=payload[offset..][..len]", b.name, "dst[..len] <- payload[offset..][..len], len = min(dst.len(), left)")
+    else:
+        R.fail([b.name, "copy-shape", "src-from-offset=%s same-len=%s" % (ok_src, ok_len)], "the reader no longer copies exactly the next `len` unread bytes of the current message", where=cp.where(), instance="copy=payload[offset..][..len]")
+        return
+    ln = n1
+    # the three cursors move by the same len before the next iteration / any return
+    adv = {t.bb for t in b.calls() if call_matches(t, ("IoSliceMut::advance",)) and copy_root(b, t.args[1]) == ln}
+    wr_local = None
+    wr = set()
+    off = set()
+    for s in b.stmts():
+        lu = local_update(b, s)
+        if lu and lu[1] == "+=" and copy_root(b, lu[2]) == ln:
+            wr.add(s.bb)
+            wr_local = lu[0]
+        fu = field_update(b, s)
+        if fu and fu.field == "BeingRead.offset" and fu.op == "+=" and fu.amount is not None and copy_root(b, fu.amount) == ln:
+            off.add(s.bb)
+    ends = set(b.return_blocks()) | {u for (u, v) in b.back_edges()}
+    start = cp.j["target"]
+    for nm, blocks in (("buffer.advance(len)", adv), ("written += len", wr), ("current.offset += len", off)):
+        reach = b.reachable(start, removed_blocks=blocks)
+        bad = [e for e in ends if e in reach and e not in blocks]
+        if blocks and not bad:
+            R.ok("copied=>cursors-advanced", nm, "on every path from the copy to the next iteration / return")
+        else:
+            R.fail([b.name, "copy-without", nm], "after copying len bytes the reader can continue without `%s`: bytes are delivered twice or skipped" % nm, where=cp.where(),
+                   witness=path_lines(b, shortest_path(b, start, bad, removed_blocks=blocks)) if bad else [], instance="copied=>cursors-advanced")
+    # clearing / refilling the partially read message
+    clears = [s for s in b.stmts() if written_field(b, s) == "UtpStreamReadHalf.current" and s.rv.ops and classify(b, s.rv.ops[0]) == "None"]
+    sets = [s for s in b.stmts() if written_field(b, s) == "UtpStreamReadHalf.current" and s not in clears]
+    R.floor("self.current = None sites", len(clears), 1)
+    for s in clears:
+        full = False
+        for c, truth, d, *_ in controlling(b, s.bb):
+            for r_, x_, y_ in implied(c, truth):
+                if r_ == "eq" and trace(b, x_).last_field == "BeingRead.offset":
+                    ty = trace(b, y_)
+                    if ty.kind == "call" and (ty.root[1].resolved or "").endswith("::len") and trace(b, ty.root[1].args[0]).last_field == "BeingRead.payload":
+                        full = True
+        if full:
+            R.ok("current-cleared=>fully-read", b.name, "self.current = None only under offset == payload.len()")
+        else:
+            R.fail([b.name, "current=None", "not-under(offset==payload.len())"], "a partially read message can be discarded (its unread tail is lost)", where=s.where(), instance="current-cleared=>fully-read")
+    pops = [t for t in b.calls() if call_matches(t, ("stream_rx::msgq::MsgQueue::pop_front", "MsgQueue::pop_front"))]
+    R.floor("queue.pop_front in poll_read_vectored", len(pops), 1)
+    for t in pops:
+        none_pending = False
+        for c, truth, d, *_ in controlling(b, t.bb):
+            if c.kind == "discr" and d.endswith("=None") and c.trace.last_field == "UtpStreamReadHalf.current":
+                none_pending = True
+        if none_pending:
+            R.ok("pop=>nothing-pending", b.name, "the queue is popped only when self.current is None")
+        else:
+            R.fail([b.name, "pop_front", "not-under(self.current is None)"], "the next message can be popped while the current one is partially read: its tail is overwritten (lost) or delivered out of order", where=t.where(), instance="pop=>nothing-pending")
+    R.floor("self.current = Some(..) sites", len(sets), 1)
+    for s in sets:
+        okb = False
+        t = trace(b, s.rv.ops[0]) if s.rv.ops else None
+        if t is not None and t.kind == "rv" and t.root[1].rv.kind == "agg":
+            inner = t.root[1].rv
+            if inner.j.get("variant") == "Some" and inner.ops:
+                t2 = trace(b, inner.ops[0])
+                inner = t2.root[1].rv if t2.kind == "rv" and t2.root[1].rv.kind == "agg" else None
+            if inner is not None and inner.j.get("adt") == "stream_rx::BeingRead":
+                names = inner.j["fields"]
+                o_off = inner.ops[names.index("offset")]
+                o_pl = trace(b, inner.ops[names.index("payload")])
+                from_pop = "Payload" in o_pl.variants and o_pl.kind == "call" and any(o_pl.root[1] is p for p in pops)
+                if o_off.kind == "const" and o_off.scalar == 0 and from_pop:
+                    okb = True
+        if okb:
+            R.ok("popped-payload=>BeingRead{offset:0}", b.name)
+        else:
+            R.fail([b.name, "current=Some", "shape"], "a popped payload does not become BeingRead { payload, offset: 0 }: reading starts at the wrong byte or from the wrong message", where=s.where(), instance="popped-payload=>BeingRead{offset:0}")
+    # returned counts
+    n_ok = 0
+    for it, cls in ret_assignments(b):
+        if not cls.startswith("Ready(Ok("):
+            continue
+        n_ok += 1
+        inner = cls[len("Ready(Ok("):-2]
+        if inner == "const:0":
+            z = any((lambda x: x is not None and copy_root(b, x) == wr_local)(zero_test(c, truth)) for c, truth, d, *_ in controlling(b, it.bb))
+            if z:
+                R.ok("returned-count=written", "Ok(0)", "only under written == 0")
+            else:
+                R.fail([b.name, "Ok(0)", "not-under(written==0)"], "the reader can report 0 bytes (end of stream) although it copied some: those bytes are lost to the application", where=it.where(), instance="returned-count=written")
+        else:
+            # Ok(x): x must be the accumulated `written`
+            okw = False
+            if isinstance(it, Stmt) and it.rv.kind == "agg" and it.rv.ops:
+                # _0 = Ready(x); x = Ok(n)
+                tt = trace(b, it.rv.ops[0])
+                if tt.kind == "rv" and tt.root[1].rv.kind == "agg" and tt.root[1].rv.j.get("variant") == "Ok" and tt.root[1].rv.ops:
+                    okw = wr_local is not None and copy_root(b, tt.root[1].rv.ops[0]) == wr_local
+            if okw:
+                R.ok("returned-count=written", "Ok(written)")
+            else:
+                R.fail([b.name, "Ok(n)", "n-is-not-written", inner[:40]], "the byte count returned to the application is not the number of bytes copied", where=it.where(), instance="returned-count=written")
+    R.floor("Ready(Ok(..)) exits of poll_read_vectored", n_ok, 3)
+    pr = R.body("<stream_rx::UtpStreamReadHalf as tokio::io::AsyncRead>::poll_read")
+    advs = [t for t in pr.calls() if call_matches(t, ("ReadBuf::advance",))]
+    R.floor("ReadBuf::advance in poll_read", len(advs), 1)
+    for t in advs:
+        tt = trace(pr, t.args[1], extra_transparent=("std::ops::Try::branch",))
+        src_ok = tt.kind == "call" and call_matches(tt.root[1], ("stream_rx::UtpStreamReadHalf::poll_read_vectored",))
+        if src_ok:
+            R.ok("poll_read-advances-by-returned-count", pr.name)
+        else:
+            R.fail([pr.name, "advance", tt.describe()[:60]], "poll_read advances the caller's buffer by something other than the count poll_read_vectored returned", where=t.where(), instance="poll_read-advances-by-returned-count")
